@@ -23,6 +23,7 @@ func init() {
 			ruleBudgetFresh(c, r, "")
 			ruleByteAtGuards(c, r, "")
 			ruleCtorReopen(c, r, "")
+			ruleNilDecoder(c, r, "")
 			ruleChunkLimits(c, r, "")
 			ruleWriter2(c, r, t, "")
 			r.Floor("SEQ-STARTCHUNK", 7)
